@@ -18,6 +18,7 @@ CONSTANTS
   KwChoices,   \* set of sets of op names a register() call may pass handlers for
   OffChoices,  \* set of sets of op names that may be passed as False (op=False) among those
   LookOps,     \* ops a Lookup action may ask for
+  XOps,        \* custom operations ("cauto" / "cplain") a RegOp action may add with register_op
   Stars,       \* TRUE: wildcard steps (Star) count as lookups too; needs keys, get and iterate in Ops
   ReReg,       \* TRUE: a type may be registered again (new handler, any exact flag)
   AllOrders,   \* TRUE: Init also ranges over every iteration order of register_op's known-type set
@@ -57,8 +58,23 @@ ClassTab == [
   \* iterable / not: N2 adds __iter__ below the non-iterable N1; I1 is iterable from the top
   N1 |-> C(<<"object">>, TRUE, FALSE, "obj"), N2 |-> C(<<"N1">>, TRUE, TRUE, "obj"),
   N3 |-> C(<<"N2">>, TRUE, FALSE, "obj"), I1 |-> C(<<"object">>, TRUE, TRUE, "obj"),
-  I2 |-> C(<<"I1">>, TRUE, FALSE, "obj") ]
-Concrete == DOMAIN ClassTab
+  I2 |-> C(<<"I1">>, TRUE, FALSE, "obj"),
+  \* ABCs with virtual subclasses (V1.register(W1), V2.register(W1), V1.register(W3)), W2(W1), W3(VP)
+  V1 |-> C(<<"object">>, TRUE, FALSE, "obj"), V2 |-> C(<<"object">>, TRUE, FALSE, "obj"),
+  W1 |-> C(<<"object">>, TRUE, FALSE, "obj"), W2 |-> C(<<"W1">>, TRUE, FALSE, "obj"),
+  VP |-> C(<<"object">>, TRUE, FALSE, "obj"), W3 |-> C(<<"VP">>, TRUE, FALSE, "obj"),
+  \* a duck type whose metaclass overrides __instancecheck__ (hasattr(obj, "quack")); K1 quacks, K2(K1)
+  Q |-> C(<<"object">>, TRUE, FALSE, "obj"), K1 |-> C(<<"object">>, TRUE, FALSE, "obj"),
+  K2 |-> C(<<"K1">>, TRUE, FALSE, "obj"),
+  \* a namedtuple class (tuple subclass whose constructor does not take one iterable, no __dict__) and the
+  \* builtin generator type (iterable through __subclasshook__, one-shot, cannot be built by calling the type)
+  NT |-> C(<<"tuple">>, FALSE, FALSE, "obj"), generator |-> C(<<"object">>, FALSE, TRUE, "obj") ]
+Abstract == {"V1", "V2", "Q"}                       \* never the type of an object
+Virt     == [W1 |-> <<"V1", "V2">>, W3 |-> <<"V1">>]  \* abc.register() relations
+Quack    == {"K1"}                                  \* classes defining the attribute Q looks for
+Special  == [V1 |-> "abc", V2 |-> "abc", Q |-> "instancecheck", NT |-> "namedtuple", generator |-> "generator"]
+Concrete == DOMAIN ClassTab \ Abstract
+VirtOf(t) == IF t \in DOMAIN Virt THEN Virt[t] ELSE <<>>
 
 RECURSIVE NomAnc(_)
 NomAnc(t) == {t} \cup UNION {NomAnc(ClassTab[t].bases[i]) : i \in 1..Len(ClassTab[t].bases)}
@@ -68,7 +84,11 @@ RECURSIVE KindOf(_)
 KindOf(t) == IF ClassTab[t].kind # "obj" \/ ClassTab[t].bases = <<>> THEN ClassTab[t].kind
              ELSE LET ks == {KindOf(ClassTab[t].bases[i]) : i \in 1..Len(ClassTab[t].bases)} \ {"obj"}
                   IN IF ks = {} THEN "obj" ELSE CHOOSE k \in ks : TRUE
-AllTypes == Concrete \cup Ducks
+GlomDucks == {"_AbstractIterable", "_ObjStyleKeys"}
+AllTypes == DOMAIN ClassTab \cup GlomDucks
+\* ABCs a class is a virtual subclass of: those its nominal ancestors were registered with (and their ancestors)
+VirtAnc(t) == UNION {UNION {NomAnc(VirtOf(a)[i]) : i \in 1..Len(VirtOf(a))} : a \in NomAnc(t)}
+Quacks(t) == \E a \in NomAnc(t) : a \in Quack
 \* type.__mro__ by C3 linearisation: the class, then the merge of the linearisations of its bases and
 \* the list of bases (repeatedly take the first head that is in the tail of no list)
 RECURSIVE C3Merge(_), Mro(_)
@@ -81,19 +101,21 @@ C3Merge(lists) ==
        IN <<h>> \o C3Merge([k \in 1..Len(ne) |-> IF ne[k][1] = h THEN Tail(ne[k]) ELSE ne[k]])
 Mro(t) == LET bs == ClassTab[t].bases IN
           <<t>> \o C3Merge([k \in 1..Len(bs) |-> Mro(bs[k])] \o (IF Len(bs) = 0 THEN <<>> ELSE <<bs>>))
+IterDuck(t) == IF HasIter(t) THEN {"_AbstractIterable"} ELSE {}
 MCUniverse ==
   [sub  |-> [t \in AllTypes |->
                IF t = "_AbstractIterable" THEN {"object"}     \* its __subclasshook__ rejects itself
                ELSE IF t = "_ObjStyleKeys" THEN {"_ObjStyleKeys", "object"}
-               ELSE NomAnc(t) \cup (IF HasIter(t) THEN {"_AbstractIterable"} ELSE {})],
+               ELSE NomAnc(t) \cup IterDuck(t) \cup VirtAnc(t)],
    inst |-> [t \in Concrete |->
-               NomAnc(t) \cup (IF HasIter(t) THEN {"_AbstractIterable"} ELSE {})
-                         \cup (IF HasDict(t) THEN {"_ObjStyleKeys"} ELSE {})],
+               NomAnc(t) \cup IterDuck(t) \cup VirtAnc(t)
+                         \cup (IF HasDict(t) THEN {"_ObjStyleKeys"} ELSE {})
+                         \cup (IF Quacks(t) THEN {"Q"} ELSE {})],
    mro  |-> [t \in Concrete |-> Mro(t)],
    auto |-> [op \in AllOps |-> [t \in AllTypes |->
-               IF t \in Ducks THEN
+               IF t \in GlomDucks THEN
                  CASE op = "get" -> "getattr" [] op = "assign" -> "setattr" [] op = "delete" -> "delattr"
-                   [] OTHER -> "False"
+                   [] op = "cauto" -> "customdefault" [] OTHER -> "False"
                ELSE
                  CASE op = "get" -> "getattr"
                    [] op = "iterate" -> IF HasIter(t) THEN "iter" ELSE "False"
@@ -101,12 +123,14 @@ MCUniverse ==
                                           [] KindOf(t) = "tuple" -> "False" [] OTHER -> "setattr")
                    [] op = "delete" -> (CASE KindOf(t) = "map" -> "delitem" [] KindOf(t) = "seq" -> "delseq"
                                           [] KindOf(t) = "tuple" -> "False" [] OTHER -> "delattr")
+                   \* the harness's autodiscovery function for "cauto": a default handler except for tuples
+                   [] op = "cauto" -> (IF KindOf(t) = "tuple" THEN "False" ELSE "customdefault")
                    [] OTHER -> "False"]]]
 \* printed once for the harness, which builds the real classes from ClassTab and checks the derived
 \* tables against issubclass / isinstance / the real autodiscovery functions
 UniverseDoc(dummy) ==   \* (a parameter keeps TLC from evaluating it at start-up)
  
-  [classes |-> [t \in Concrete |-> ClassTab[t]],
+  [classes |-> ClassTab, abstract |-> SeqOf(Abstract), virt |-> Virt, quack |-> SeqOf(Quack), special |-> Special,
    sub  |-> [t \in AllTypes |-> SeqOf(MCUniverse.sub[t])],
    inst |-> [t \in Concrete |-> SeqOf(MCUniverse.inst[t])],
    mro  |-> MCUniverse.mro,
@@ -117,9 +141,13 @@ Families ==
   [chain    |-> [regt |-> <<"C1", "C2", "C3", "C4">>,   objs |-> <<"C1", "C3", "C4", "dict">>],
    diamond  |-> [regt |-> <<"DA", "DB", "DC", "DD">>,   objs |-> <<"DB", "DD", "DE">>],
    mixin    |-> [regt |-> <<"A", "B", "X", "E">>,       objs |-> <<"B", "E", "F">>],
-   builtins |-> [regt |-> <<"MD", "MD2", "ML", "MO">>,  objs |-> <<"MD3", "ML2", "MT", "MO", "list">>],
+   builtins |-> [regt |-> <<"MD", "MD2", "ML", "MO">>,  objs |-> <<"MD3", "ML2", "MT", "MO", "list", "NT">>],
    slots    |-> [regt |-> <<"S1", "S2", "S3">>,         objs |-> <<"S2", "S3", "S4">>],
-   ducks    |-> [regt |-> <<"N1", "N2", "I1">>,         objs |-> <<"N1", "N3", "I2", "OrderedDict">>],
+   ducks    |-> [regt |-> <<"N1", "N2", "I1">>,         objs |-> <<"N1", "N3", "I2", "OrderedDict", "generator">>],
+   \* ABCs with virtual subclasses (one class is a virtual subclass of two registered ABCs), a duck type by
+   \* metaclass __instancecheck__
+   abcs     |-> [regt |-> <<"V1", "V2", "W1", "VP">>,   objs |-> <<"W1", "W2", "W3">>],
+   quack    |-> [regt |-> <<"Q", "K1", "C1">>,          objs |-> <<"K1", "K2", "C2">>],
    objroot  |-> [regt |-> <<"object", "C1", "C2">>,     objs |-> <<"object", "C3", "tuple">>],
    \* types that are both registered and looked up (memo of a type's own entry, False handlers)
    own      |-> [regt |-> <<"MD", "ML", "MO">>,         objs |-> <<"MD", "ML", "MO", "ML2">>],
@@ -164,10 +192,19 @@ DoLookup ==
 DoStar ==
   /\ Stars /\ Count("look") + Count("star") < MaxLook
   /\ \E r \in DOMAIN regs : \E T \in Objs : Star(r, T)
+\* register_op on a Glommer registry (a Glommer copies the operations of the module-level registry at construction,
+\* so the default registry is left alone) while at most one type is known (the iteration order of the set of known
+\* types is then determined) and nothing was registered exact=True (what register_op does to such types is not
+\* covered by the statement)
+DoRegOp ==
+  \E r \in DOMAIN regs \ {"default"} : \E op \in XOps :
+    /\ Cardinality(MKnown(regs[r])) <= 1
+    /\ \A i \in 1..Len(regs[r].made) : ~regs[r].made[i].exact
+    /\ LET known == SeqOf(MKnown(regs[r])) IN RegisterOpAct(r, op, known, known)
 DoNew ==
   /\ Dynamic /\ Count("new") < MaxNew
   /\ \E r \in DOMAIN regs : NewGlommer(r, korder)
-Next == (DoRegister \/ DoLookup \/ DoStar \/ DoNew) /\ UNCHANGED <<fam, korder>>
+Next == (DoRegister \/ DoLookup \/ DoStar \/ DoRegOp \/ DoNew) /\ UNCHANGED <<fam, korder>>
 Spec == Init /\ [][Next]_vars
 
 \* ---- laws (INVARIANT / PROPERTY lines of the cfg file) ----------------------------------------
@@ -180,5 +217,5 @@ Coherent   == CacheCoherent
 TreeOK     == TreeInvariant
 Isolation  == [][IsolationStep]_vars
 \* an untouched registry equals the freshly constructed one of its kind
-Untouched  == \A r \in Live : regs[r].made = <<>> /\ regs[r].cache = <<>> => regs[r] = Pristine(RegKind[r])
+Untouched  == \A r \in Live : regs[r].made = <<>> /\ regs[r].xops = <<>> /\ regs[r].cache = <<>> => regs[r] = Pristine(RegKind[r])
 ====================================================================================
